@@ -140,6 +140,8 @@ type workload struct {
 	pnMu     sync.Mutex
 	pace     time.Duration // pause after every acknowledged operation (keeps the log short, so that restarts replay quickly)
 	noLists  bool          // never create list values (a snapshot of a list kills the node: KF-C08-01 would hide everything else)
+	retry    time.Duration // pause before reconnecting (default 200 ms)
+	simple   bool          // only commands whose reply identifies the command (tagged PING, counter, own list, own register)
 	rate     float64       // if > 0: operations started per second over all clients (a node re-applies its whole log on restart and logs quadratically, so the log length bounds the recovery time)
 	issued   int64
 }
@@ -204,16 +206,20 @@ func (w *workload) genOp(r *rand.Rand, uniq string) ([][]byte, string) {
 func (w *workload) client(node int, seed int64, wg *sync.WaitGroup) {
 	defer wg.Done()
 	r := rand.New(rand.NewSource(seed))
+	retry := w.retry
+	if retry == 0 {
+		retry = 200 * time.Millisecond
+	}
 	for atomic.LoadInt32(&w.stop) == 0 {
 		id := int(atomic.AddInt64(&w.nextID, 1))
 		nd := w.c.Nodes[node-1]
 		if nd.Srv == nil || nd.Srv.Exited() {
-			time.Sleep(200 * time.Millisecond)
+			time.Sleep(retry)
 			continue
 		}
 		cl, err := respc.Dial(nd.Addr(), 2*time.Second)
 		if err != nil {
-			time.Sleep(200 * time.Millisecond)
+			time.Sleep(retry)
 			continue
 		}
 		cl.Timeout = 4 * time.Second
@@ -226,6 +232,9 @@ func (w *workload) client(node int, seed int64, wg *sync.WaitGroup) {
 			var cmd [][]byte
 			key := ""
 			kind := r.Intn(10)
+			if w.simple {
+				kind = r.Intn(5)
+			}
 			if w.noLists && kind == 0 {
 				kind = 3
 			}
@@ -294,18 +303,27 @@ func (w *workload) client(node int, seed int64, wg *sync.WaitGroup) {
 					w.led.acked[logKey] = append(w.led.acked[logKey], n)
 				}
 				w.led.mu.Unlock()
+				if v.Kind != ':' {
+					report(witness{Kind: "misrouted-reply", Detail: fmt.Sprintf("client %d on node %d sent %s and received %s: not the reply of an RPUSH to a list only this client uses", id, node, cmdStr(cmd), v.String()), Sig: "misrouted-reply"})
+				}
 			case "INCR":
 				w.led.mu.Lock()
 				if v.Kind == ':' {
 					w.led.incrAck++
 				}
 				w.led.mu.Unlock()
+				if v.Kind != ':' {
+					report(witness{Kind: "misrouted-reply", Detail: fmt.Sprintf("client %d on node %d sent %s and received %s: not the reply of an INCR on a counter that only ever sees INCR", id, node, cmdStr(cmd), v.String()), Sig: "misrouted-reply"})
+				}
 			case "SET":
 				w.led.mu.Lock()
 				if v.Kind == '+' {
 					w.led.setAck[ownKey] = uniq
 				}
 				w.led.mu.Unlock()
+				if v.Kind != '+' {
+					report(witness{Kind: "misrouted-reply", Detail: fmt.Sprintf("client %d on node %d sent %s and received %s: not the reply of a plain SET", id, node, cmdStr(cmd), v.String()), Sig: "misrouted-reply"})
+				}
 			}
 		}
 		cl.Close()
@@ -542,6 +560,7 @@ func diffLines(a, b string) string {
 
 type stats struct {
 	scenarios, ops, open, nemesis, restarts, decided, unknown int
+	leaderTerms                                               int // (term, leader) announcements read from the nodes' raft logs
 	kinds                                                     map[string]int
 	crashPoints                                               map[string]int
 }
@@ -678,6 +697,7 @@ func scenarioC07(o *common.Opts, idx int, st *stats, n int, race bool) string {
 	wg.Wait()
 	st.open += int(w.timeouts)
 	ok, why := quiesce(c, w.led, "c07", 240*time.Second)
+	checkElectionLog(c, st, "c07")
 	if !ok && why == "cluster did not serve writes within the bound" {
 		return why + clusterDiag(c)
 	}
@@ -853,9 +873,10 @@ func scenarioC08(o *common.Opts, idx int, cs c08case, st *stats) string {
 		}
 		st.restarts++
 	}
-	ok, why := quiesce(c, w.led, cs.regime, 90*time.Second)
+	ok, why := quiesce(c, w.led, cs.regime, 240*time.Second)
+	checkElectionLog(c, st, cs.regime)
 	if !ok && why == "cluster did not serve writes within the bound" {
-		return why
+		return why + clusterDiag(c)
 	}
 	st.ops += int(w.done)
 	st.scenarios++
@@ -924,6 +945,30 @@ func main() {
 				mu.Unlock()
 			}(i, j)
 		}
+		extra := func(name string, n int, f func(idx int, local *stats) string) {
+			for k := 0; k < n; k++ {
+				wg.Add(1)
+				go func(k int) {
+					defer wg.Done()
+					local := &stats{kinds: map[string]int{}, crashPoints: map[string]int{}}
+					why := ""
+					for try := 0; try < 3; try++ {
+						why = f(k*10+try, local)
+						if why != "cluster did not become writable" && !strings.HasPrefix(why, "start: ") && !strings.HasPrefix(why, "cluster did not serve writes within the bound") {
+							break
+						}
+					}
+					mu.Lock()
+					merge(st, local)
+					if why != "" {
+						inconclusive = why + " (" + name + ")"
+					}
+					mu.Unlock()
+				}(k)
+			}
+		}
+		extra("votes", o.Pick(1, 4), func(idx int, local *stats) string { return scenarioVotes(o, idx, local) })
+		extra("storm", o.Pick(1, 3), func(idx int, local *stats) string { return scenarioStorm(o, idx, local, "c07") })
 		wg.Add(1)
 		go func() {
 			defer wg.Done()
@@ -973,6 +1018,35 @@ func main() {
 		var mu sync.Mutex
 		var wg sync.WaitGroup
 		sem := make(chan struct{}, 4)
+		extra := func(name string, n int, f func(idx int, local *stats) string) {
+			for k := 0; k < n; k++ {
+				if *fOnly != "" && !strings.Contains(name, *fOnly) {
+					continue
+				}
+				wg.Add(1)
+				go func(k int) {
+					defer wg.Done()
+					sem <- struct{}{}
+					defer func() { <-sem }()
+					local := &stats{kinds: map[string]int{}, crashPoints: map[string]int{}}
+					why := ""
+					for try := 0; try < 3; try++ {
+						why = f(k*10+try, local)
+						if why != "cluster did not become writable" && !strings.HasPrefix(why, "start: ") && !strings.HasPrefix(why, "cluster did not serve writes within the bound") {
+							break
+						}
+					}
+					mu.Lock()
+					merge(st, local)
+					if why != "" {
+						inconclusive = why + " (" + name + ")"
+					}
+					mu.Unlock()
+				}(k)
+			}
+		}
+		extra("slowdisk", o.Pick(2, 6), func(idx int, local *stats) string { return scenarioSlowDisk(o, idx, local) })
+		extra("storm", o.Pick(1, 3), func(idx int, local *stats) string { return scenarioStorm(o, idx, local, "c08") })
 		for i, cs := range cases {
 			if *fOnly != "" && !strings.Contains(cs.regime+":"+cs.seam, *fOnly) {
 				continue
@@ -986,7 +1060,7 @@ func main() {
 				why := ""
 				for try := 0; try < 3; try++ {
 					why = scenarioC08(o, i*10+try, cs, local)
-					if why != "cluster did not become writable" && !strings.HasPrefix(why, "start: ") {
+					if why != "cluster did not become writable" && !strings.HasPrefix(why, "start: ") && !strings.HasPrefix(why, "cluster did not serve writes within the bound") {
 						break
 					}
 				}
@@ -1052,20 +1126,21 @@ func main() {
 	}
 	ev := &evidence.Evidence{PropertyID: prop, Tier: o.Tier, Seed: o.Seed, Level: "fault_enumeration", WallS: o.Elapsed(), Violations: violations,
 		Coverage: map[string]any{
-			"evaluations":                    st.scenarios,
-			"distinct_nontrivial":            distinct,
-			"rule":                           rule,
-			"samples":                        []any{"partition {2} for 3.1 s while c14 RPUSH log:14 7 (acked) / c9 INCR total (no reply -> open)", "nosnap/afterWalSave@37 on node 2, kill all, restart order 3,2,1, ledger checked on every node"},
-			"operations_acknowledged":        st.ops,
-			"operations_without_reply":       st.open,
-			"nemesis_actions":                st.nemesis,
-			"scenario_kinds":                 st.kinds,
-			"failpoints_fired":               st.crashPoints,
-			"node_restarts":                  st.restarts,
-			"histories_decided_by_porcupine": st.decided,
-			"histories_porcupine_unknown":    st.unknown,
-			"known_finding_hits":             knownHits,
-			"violation_samples":              vs,
+			"evaluations":              st.scenarios,
+			"distinct_nontrivial":      distinct,
+			"rule":                     rule,
+			"samples":                  []any{"partition {2} for 3.1 s while c14 RPUSH log:14 7 (acked) / c9 INCR total (no reply -> open)", "nosnap/afterWalSave@37 on node 2, kill all, restart order 3,2,1, ledger checked on every node"},
+			"operations_acknowledged":  st.ops,
+			"operations_without_reply": st.open,
+			"nemesis_actions":          st.nemesis,
+			"scenario_kinds":           st.kinds,
+			"failpoints_fired":         st.crashPoints,
+			"node_restarts":            st.restarts,
+			"leader_announcements_read_from_raft_logs": st.leaderTerms,
+			"histories_decided_by_porcupine":           st.decided,
+			"histories_porcupine_unknown":              st.unknown,
+			"known_finding_hits":                       knownHits,
+			"violation_samples":                        vs,
 		},
 		Assumptions: []string{"safety only: a client left without reply (dropped proposal) is an open operation, not a violation", "process crashes (SIGKILL) on a filesystem that keeps what was written; power-loss semantics of the log files are C16's subject",
 			"a cluster that does not serve writes within 90 s after healing is inconclusive, not a violation"}}
@@ -1094,6 +1169,7 @@ func merge(a, b *stats) {
 	a.restarts += b.restarts
 	a.decided += b.decided
 	a.unknown += b.unknown
+	a.leaderTerms += b.leaderTerms
 	for k, v := range b.kinds {
 		a.kinds[k] += v
 	}
